@@ -15,6 +15,7 @@ Import ListNotations.
 Require Import ZV.Model.GenShape ZV.Proofs.GenShapeProofs ZV.Model.Lexer.
 Require ZV.Model.Reader ZV.Properties.C13.
 Require Import ZV.Model.CallCheck ZV.Proofs.CallCheckProofs.
+Require Import ZV.Model.Destructure ZV.Proofs.DestructureProofs.
 
 Theorem gen_total : forall omacro oinfix ofile fuel xs s,
   load omacro oinfix ofile fuel xs <> RCrash s.
@@ -57,6 +58,29 @@ Example ex_call_by_name_repeated :      (* (t a:1 a:2) with parameters a b: an e
 Proof. vm_compute. reflexivity. Qed.
 Example ex_call_by_name_ok :
   call_check [(1, TInt); (2, TStr)] [ANamed 2; AVal TStr; ANamed 1; AVal TInt] = COkCall.
+Proof. vm_compute. reflexivity. Qed.
+
+(* vm.go AssignInstr.assign (array := array, the multiple assignment) and BindlistInstr (mdef): for every
+   target list and every value sequence, of any two lengths, the value sequence is never indexed past its
+   end; and the assignment succeeds exactly when the counts are equal and every target is a symbol *)
+Theorem assign_arrays_total : forall lhs rhs, assign_arrays lhs rhs <> DCrash.
+Proof. exact assign_arrays_no_crash. Qed.
+Print Assumptions assign_arrays_total.
+
+Theorem bindlist_total : forall syms arr, bindlist syms arr <> DCrash.
+Proof. exact bindlist_no_crash. Qed.
+Print Assumptions bindlist_total.
+
+Theorem assign_arrays_ok_spec : forall lhs rhs,
+  (exists b, assign_arrays lhs rhs = DOk b) <-> (length rhs = length lhs /\ Forall (fun t => t <> TNotSym) lhs).
+Proof. exact assign_arrays_ok_iff. Qed.
+Print Assumptions assign_arrays_ok_spec.
+
+Example ex_assign_short : assign_arrays [TSym 1; TSym 2; TSym 3] [10; 20] = DErr.     (* {a, b, c = 1, 2} *)
+Proof. vm_compute. reflexivity. Qed.
+Example ex_assign_ok : assign_arrays [TSym 1; TSym 2] [10; 20] = DOk [(1, 10); (2, 20)].
+Proof. vm_compute. reflexivity. Qed.
+Example ex_bindlist_surplus : bindlist [1; 2] [10; 20; 30] = DOk [(1, 10); (2, 20)].
 Proof. vm_compute. reflexivity. Qed.
 
 (* non-vacuity: ordinary forms generate, malformed ones are errors, not crashes *)
